@@ -5042,10 +5042,17 @@ class ParseCtx:
                 statements = stmt.children[1:]
             loop_node = LoopNode(loop_name)
             previous_break = self.innermost_break_handler
+            previous_named = self.break_handlers.get(loop_name)
             self.break_handlers[loop_name] = loop_node.get_break_handler
             self.innermost_break_handler = loop_node.get_break_handler
             child_node = self._parse_stmt_seq(statements)
             self.innermost_break_handler = previous_break
+            # the name is in scope inside the loop only (statements are parsed last to first: without this, a break written
+            # before a nested or later loop of the same name would refer to that loop)
+            if previous_named is None:
+                del self.break_handlers[loop_name]
+            else:
+                self.break_handlers[loop_name] = previous_named
             loop_node.set_child(child_node)
             return ProgramData.imbue(loop_node,
                 DTAG.SOURCE_LINE, stmt.meta.line,
